@@ -238,12 +238,13 @@ def run(ctx):
     t1 = time.time()
     q = ctx.quick
     may_die = {"allow_fail": True}          # a dying recorder is an observation: see crashed_sessions
-    # every history with both value types; placements rotate with the history index
-    jobs = [("c08", ["--mode", "gen", "--in", h, "--vt", "both"], "gen%d.ndjson" % i, may_die)
+    # <= 2 operations: every history with both value types; <= 3 stores / clones (thorough): value types
+    # alternate with the history index; placements rotate with the history index
+    jobs = [("c08", ["--mode", "gen", "--in", h, "--vt", "both" if i == 0 else "alternate"], "gen%d.ndjson" % i, may_die)
             for i, (h, _) in enumerate(hists)]
-    nrand, ops = (240, 120) if q else (6000, 400)
-    per = 120 if q else 375
-    for i in range(nrand // per):
+    nrand, ops = (240, 120) if q else (3000, 300)
+    per = 120 if q else 188
+    for i in range((nrand + per - 1) // per):
         jobs.append(("c08", ["--mode", "random", "--n", per, "--ops", ops, "--stream", i], "rand%02d.ndjson" % i, may_die))
     paths = ctx.record_many(jobs, parallel=8)
     crashes = crashed_sessions(ctx, "c08", paths)
@@ -259,7 +260,7 @@ def run(ctx):
         "clone / new%s, both endiannesses, with and without backing, each followed by all loads of 8/16/32/64 bits at "
         "offsets 0..8, permissions at offsets 0..6 and eq of all pairs; replayed for V = il::Constant and il::Expression "
         "with the window across a page boundary at 1024 / 2^32 / 2^63 (rotating)"
-        % ("" if q else "; and every history of <= 3 stores / clones"))
+        % ("" if q else "; and every history of <= 3 stores / clones (value types alternating)"))
     ctx.extra["generated_histories"] = sum(n for _, n in hists)
     ctx.extra["random_sessions"] = nrand
     ctx.extra["random_max_ops"] = ops
